@@ -18,7 +18,7 @@ from checks._c10_helpers import install_time_grid
 
 ID = "C10"
 LEVEL = "exploration"
-RUNS = {"quick": 1600, "thorough": 30000}
+RUNS = {"quick": 1600, "thorough": 50000}
 WALL_CAP = {"quick": 120, "thorough": 3000}
 RULE = ("one case = one generated history (8-45 ops) of enable/disable requests (private events, direct calls, "
         "bursts of both inside one tick), sw_flip/sw_release, cabinet button / EOS switch activity, autofire "
